@@ -507,10 +507,16 @@ func BatchFunc[T any](
 
 		startTimer := func() {
 			stopTimer()
+			wait := maxWait - time.Since(batchStart)
+			if wait > maxWait {
+				// The subtraction wrapped around: maxWait is so far below zero that there is
+				// nothing to wait for.
+				wait = 0
+			}
 			if timer == nil {
-				timer = time.NewTimer(maxWait - time.Since(batchStart))
+				timer = time.NewTimer(wait)
 			} else {
-				timer.Reset(maxWait - time.Since(batchStart))
+				timer.Reset(wait)
 			}
 			timerC = timer.C
 		}
